@@ -39,9 +39,13 @@ CHECKS.update({
  "C13": {"design_ref": "DESIGN 4 C13", "technique": TECH + "16 symbolic signature bytes through the real header checkers and the real open_with_params (must-be-refused harnesses: cover after the call unreachable)",
          "text": "For ALL 2^128 signature pairs different from (format signature, expected type signature) and all expected signatures, each of the three header checkers and each of the three open_with_params panics on the signature assertion before producing a handle, with the file under a read-only latch (no byte written, no length change). Pairwise distinctness of the five type signatures (u64/vu64 collision = recorded finding D5).", "note": NOTE},
 })
+CHECKS.update({
+ "C14": {"design_ref": "DESIGN 4 C14", "technique": TECH + "the real trait default methods of lib.rs on an ideal map, symbolic batches, universally quantified probe key",
+         "text": "For EVERY batch of 3 u64 keys in every order (repeats allowed for bulk_get, excluded for bulk_delete/bulk_put) on every ideal map of up to 3 entries: bulk_get/bulk_delete answer position by position what the scalar call answers, bulk_put/bulk_put_string/put_from_iter leave the map as the scalar puts in order would; *_string variants are the byte variants composed with encoding/decoding.", "note": NOTE},
+})
 NOT_APPLICABLE = {
  "C11": "registry of maps = five BTreeMap<String,_> + format!/PathBuf file naming + the OS file namespace: symbolic execution of that code does not finish (10 min in BTreeMap search/memcmp/io::Error drop glue for one concrete name) and isolation itself is a property of the file system, which this technique can only stub; the one solver-sized fact (clones share one Rc<RefCell<_>>) holds by type.",
 }
-for p in ["C05", "C14", "C15", "C17", "C18"]:
+for p in ["C05", "C15", "C17", "C18"]:
     NOT_APPLICABLE[p] = "check under construction in this session (see DESIGN 4); not claimed until its harness family reaches a verdict on the unchanged tree"
 NOTES = "All checks: exit 0 held (KNOWN-FINDING lines for recorded findings), exit 1 VIOLATION after native playback of the solver's counterexample, exit 2 inconclusive (timeout, out of memory, build failure of a re-linked harness crate, counterexample that does not replay). See DESIGN.md."
